@@ -716,6 +716,12 @@ def mk_ind(op, p):
         if p.is_const():
             c = p.const_value()
             return Poly.const(1 if ((c < 0) if op == '<0' else (c == 0)) else 0)
+        if op == '<0' and len(p.t) == 3:
+            # [len(K) - 1 < rank(K, n)]: the rank of a key that is in K (as keypos takes n to be) is a position of K, never past the last one
+            for m_, c_ in p.t.items():
+                if c_ == -1 and len(m_) == 1 and m_[0][1] == 1 and m_[0][0][0] == 'fn' and m_[0][0][1] == 'rank' and len(m_[0][0]) == 4 and m_[0][0][2][0] == 'B':
+                    if p + Poly.atom(m_[0][0]) == count(m_[0][0][2][1]) - 1:
+                        return Poly.const(0)
         p = _scale_normalise(p, allow_flip=(op == '==0'))
     elif op in ('isinf', 'isnan'):
         if p.is_const():
